@@ -36,7 +36,7 @@ MineEvent(e) ==
 \* white box: lane j has exactly tz[j] trailing zero trits; first lane with >= n zeros, else 64
 Check1Event(e) ==
   LET ok == {j \in 1..64 : e.in.tz[j] >= e.in.n}
-  IN e.out.panic = "" /\ e.out.idx = (IF ok = {} THEN 64 ELSE (CHOOSE j \in ok : \A k \in ok : j <= k) - 1)
+  IN e.out.panic = "" /\ (IF ok = {} THEN e.out.idx = 64 ELSE e.out.idx + 1 \in ok)      \* some lane with at least n zeros (which one is free)
 
 \* ---------------- v2
 Score2Event(e) ==
@@ -89,9 +89,12 @@ Conforms(e) ==
     [] e.op = "pow2.Score" -> Score2Event(e)
     [] e.op = "pow2.Mine" -> Mine2Event(e)
     [] e.op = "pow2.check" -> Check2Event(e)
-    [] e.op = "pow2.params" ->         \* sufficientTrailingZeros and targetHash of the code
-         /\ e.out.panic = "" /\ e.out.s = Sufficient(e.in.lx)
-         /\ BNDivCert(MaxHash, BNAdd(e.in.lx, <<1>>), e.out.target, e.out.rem)
+    [] e.op = "pow2.params" ->         \* sufficientTrailingZeros and targetHash of the code, by what they must guarantee
+         /\ e.out.panic = "" /\ e.out.s \in 0..243
+         /\ BNLe(e.in.lx, BNPow3Table[e.out.s])                                            \* s zeros are sufficient
+         /\ BNWellFormed(e.out.target)
+         /\ BNLe(BNMul(e.out.target, e.in.lx), MaxHash)                                    \* every hash up to the target qualifies
+         /\ ~BNLe(BNMul(BNAdd(e.out.target, <<1>>), BNAdd(e.in.lx, <<1>>)), MaxHash)       \* no clearly qualifying hash above it
     [] OTHER -> FALSE
 
 Init == l = 1 /\ bad = <<>>
